@@ -19,7 +19,7 @@ TAGS = {
 }
 # release_all is explored as an operation of its own where the property speaks about it (C19: every release-all batch; C02: a release never
 # presses) - not for C01, whose statement is about physical releases only (what release_all leaves behind is C06's business)
-WITH_RA = {"C02", "C19", "C14"}
+WITH_RA = {"C02", "C19", "C14", "C03"}
 
 SIZES = {
     # per_pair, triples, seeded pairs, seeded triples
@@ -516,6 +516,10 @@ def check(prop, tier):
         }
         if not res.tool_errors:
             res.coverage.update(deep_walks(res, exe, wd, prop, tier))
+        if prop == "C01" and not res.tool_errors:
+            # the same statement at the loop: judged each time the real loop goes back to waiting (bursts, tablet and key events in one wake-up)
+            import e2
+            res.coverage.update(e2.loop_level(res, exe, wd, tier, prop))
         if tier == "thorough" and prop in ("C01", "C02", "C19") and not res.violations and not res.tool_errors:
             res.coverage.update(design_level(res, wd, prop, tier))
         res.assumptions = ["bounded: at most maxheld (3, some 4) keys physically held, alphabets of 6-8 keys",
@@ -686,6 +690,9 @@ def replay(prop, path):
     rp = json.load(open(path))
     if rp.get("engine") == "E1-mapper-walk":
         return replay_walk(prop, path)
+    if rp.get("engine") in ("E2-loop-trace", "E2-loop-walk"):
+        import e2
+        return e2.check(prop, "quick", path)
     try:
         exe = build_harness()
         wd = workdir("%s-replay" % prop)
